@@ -51,3 +51,37 @@ package crypto
 //@ ensures err == nil ==> opened(s.key, be32(ciphertext, 0), be64(ciphertext, 4), ciphertext[12:], result)
 //@ ensures err != nil ==> s.recvNonce == old(s.recvNonce)
 //@ ensures s.sendNonce == old(s.sendNonce)
+
+// ---- C03: key agreement (symbolic X25519 / HKDF, see contracts/extern/crypto.spec) ----
+
+//@ func GenerateEphemeralKeypair
+//@ prop C03
+//@ check bounds
+//@ ensures err == nil ==> publicKey == pubOf(privateKey)
+
+//@ func ComputeECDH
+//@ prop C03
+//@ check bounds
+//@ ensures err == nil ==> result == dh(privateKey, remotePublicKey)
+//@ ensures err == nil ==> remotePublicKey != zeros() && result != zeros()
+//@ ensures remotePublicKey == zeros() ==> err != nil
+
+//@ func ZeroKey
+//@ prop C03
+//@ check bounds
+//@ modifies contents(k)
+//@ loop 0 invariant -1 <= rangeindex && forall j in 0..rangeindex+1: (*k)[j] == 0
+//@ ensures forall j in 0..32: (*k)[j] == 0
+
+//@ func DeriveSessionKey
+//@ prop C03
+//@ check bounds alloc
+//@ at call hkdf.New assert len($1) == 32 && offset($1) == 0 && arr($1) == sharedSecret
+//@ at call hkdf.New assert len($2) == 72 && be64($2, 0) == streamID
+//@ at call hkdf.New assert forall i in 0..32: $2[8 + i] == initiatorPub[i]
+//@ at call hkdf.New assert forall i in 0..32: $2[40 + i] == responderPub[i]
+//@ after call io.ReadFull assume sk.key == kdf(sharedSecret, streamID, initiatorPub, responderPub)
+//@ ensures result != nil
+//@ ensures result.key == kdf(sharedSecret, streamID, initiatorPub, responderPub)
+//@ ensures result.isInitiator == isInitiator
+//@ ensures result.sendNonce == 0 && result.recvNonce == 0
